@@ -38,7 +38,13 @@
         gen_ok(objects, manifest),
         validated(manifest),
     ensures
+        // C04, C03: on success exactly the new complete point; on every exit where the update did not
+        // complete the previously stored version stays the one `self` presents (manifest, open file and
+        // position on abort; the manifest on any error before the rename)
         update_post(*old(self), *final(self), manifest, res),
+//@ entry
+        // the manifest parameter, under a name a later shadowing in the body cannot capture
+        let ghost m0 = manifest;
 //@ exit
         // C04: success is reported (and, in the text, the rename is reached) only after the generator
         // has answered Ok(None): a generator error always leaves through `?`
@@ -47,13 +53,13 @@
 |err: IntoInnerError| -> (r: UpdateError) ensures r is Failed
 //@ beforeloop 1
         let ghost mut yielded: Seq<StoredObject> = Seq::empty();
-        let ghost m0 = manifest;
 //@ loop 1
             invariant
-                gen_ok(objects, manifest),
-                tmp_file.buffered() == enc_point(self.header, manifest, yielded),
-                forall|i: int| 0 <= i < yielded.len() ==> good_object(manifest, #[trigger] yielded[i]),
-                tmp_object_start as int == (enc_header(self.header) + enc_manifest(manifest)).len(),
+                gen_ok(objects, m0),
+                tmp_file.buffered() == enc_point(self.header, m0, yielded),
+                forall|i: int| 0 <= i < yielded.len() ==> good_object(m0, #[trigger] yielded[i]),
+                tmp_object_start as int == (enc_header(self.header) + enc_manifest(m0)).len(),
+                // C04, C03: while objects are still being fetched the stored version is untouched in memory
                 self.manifest == old(self).manifest, self.file == old(self).file,
                 self.path == old(self).path, self.is_new == old(self).is_new,
                 self.header.update_status is Success,
@@ -125,6 +131,16 @@ spec fn complete_point(bytes: Seq<u8>) -> bool {
         && forall|i: int| 0 <= i < objs.len() ==> good_object(m, #[trigger] objs[i])
 }
 
+// `self` presents the new manifest together with the new complete file at the point's path.
+spec fn new_point_in_place(pre: StoredPoint, post: StoredPoint, manifest: StoredManifest) -> bool {
+    &&& post.manifest == Some(manifest)
+    &&& post.file is Some
+    &&& post.file->Some_0.inner().path() == pre.path.p
+    &&& exists|objs: Seq<StoredObject>|
+            post.file->Some_0.inner().content() == #[trigger] enc_point(post.header, manifest, objs)
+            && forall|i: int| 0 <= i < objs.len() ==> good_object(manifest, #[trigger] objs[i])
+}
+
 // C04: the contract of update/_update.
 spec fn update_post(pre: StoredPoint, post: StoredPoint, manifest: StoredManifest, res: Result<(), UpdateError>) -> bool {
     // identity of the point never changes
@@ -146,8 +162,10 @@ spec fn update_post(pre: StoredPoint, post: StoredPoint, manifest: StoredManifes
     // absence, unchanged and usable: same manifest, same open file at the same position
     &&& (res matches Err(UpdateError::Abort) ==> post.manifest == pre.manifest && post.file == pre.file
             && post.is_new == pre.is_new)
-    // (a fatal I/O error - Err(Failed) - may occur after the rename, e.g. the final seek: the
-    // store then already holds the new complete point; nothing is claimed about `self`)
+    // C04: any other error (fatal I/O): either it happened before the rename and `self` still presents
+    // the previous manifest, or it happened after the rename (the final seek) and `self` presents the
+    // new manifest together with the new complete file - never a mix of the two
+    &&& (res is Err ==> post.manifest == pre.manifest || new_point_in_place(pre, post, manifest))
 }
 
 // ---- assumed contracts of methods on extracted types ---------------------------
